@@ -581,6 +581,9 @@ func scenariosFor(tier string) []vrt.Scenario {
 			adder(cfg{kind: "continuous", workers: wk, gate: "yield", bodyDur: time.Millisecond, runFor: 2 * time.Millisecond})
 		}
 		addDelay(2, cfg{kind: "trigger", workers: 2, ticks: q(2, 3), gate: "barrier", stop: "cancel-q"})
+		// users mode with fewer iterations allowed than users: whoever wins the ids, no two running iterations may share a handle
+		addDelay(2, cfg{kind: "continuous", workers: 3, limit: 2, gate: "yield", bodyDur: time.Millisecond})
+		add(1, cfg{kind: "continuous", workers: 2, limit: 1, gate: "yield", bodyDur: time.Millisecond})
 		if !quick {
 			add(1000, cfg{kind: "trigger", workers: 1, ticks: q(2), gate: "yield", stop: "cancel-q"})
 			add(3, cfg{kind: "trigger", workers: 2, ticks: q(2), gate: "barrier", stop: "cancel-q"})
